@@ -26,7 +26,7 @@ RULE = ('cases = default sets (plain, renamed one-to-one, one deprecated name sp
         'files defining both a deprecated name and a successor, or referencing a deprecated name via rule:) x tool '
         '(upgrade YAML/JSON in and out; convert JSON->YAML; policy-generator and list-redundant with a main file plus '
         'directory overrides, each name in at most one file, file rules spelled as textual variants of the default, as near misses (one operand of the top-level and/or dropped or '
-        'added), as always-allow ("", "@", []) or as different rules, no override under a deprecated name). Decisions compared under all 16 subsets of 4 roles and 2 '
+        'added), as always-allow ("", "@", []) or as different rules, no override under a deprecated name; in 40 % of these cases the files are rewritten after the first load and the tools then run on the living enforcer; namespaces hand their defaults over as a list or as a one-shot iterable). Decisions compared under all 16 subsets of 4 roles and 2 '
         'targets. Non-trivial = the file overrides at least one registered or deprecated name; distinct = distinct (defaults, files, tool).')
 ASSUMPTIONS = ['default configuration (enforce_new_defaults and enforce_scope at their defaults), no scope types: "request scope matching"',
                'redundant rules are read from list-redundant output lines of the form "name": ... (pinned by the repository\'s ListRedundantTestCase)',
@@ -35,7 +35,7 @@ LEVEL_TEXT = ('Seeded sampling of (defaults, operator files) with targeted shape
               'enforcer and its decisions compared with the input\'s. The suite only compares text on one small file per tool.')
 LEVEL_NOTE = 'trusted: a real Enforcer on the unmodified input as the oracle; the stevedore test manager stands for entry points'
 PLAN = {'quick': dict(shards=8, wall=80), 'thorough': dict(shards=16, wall=500)}
-MIN = {'evaluations': 400, 'upgrade_runs': 100, 'convert_runs': 100, 'generator_runs': 100, 'redundant_reports': 30,
+MIN = {'evaluations': 400, 'upgrade_runs': 100, 'convert_runs': 100, 'generator_runs': 100, 'redundant_reports': 30, 'tools_on_living_enforcer': 30,
        'decisions_compared': 20000}
 ANCHORS = ['oslo_policy.generator:_convert_policy_json_to_yaml', 'oslo_policy.generator:_upgrade_policies',
            'oslo_policy.generator:_generate_policy', 'oslo_policy.generator:_list_redundant',
@@ -183,6 +183,16 @@ def gen_file(rnd, spec, allow_deprecated=True, allow_lists=True, odd=0.15, varia
     return f
 
 
+def one_shot(ds, how):
+    """The object an `oslo.policy.policies` entry point returns: a list, or a one-shot iterable."""
+    import itertools
+    if how == 'chain':
+        return itertools.chain(ds[:2], ds[2:])
+    if how == 'generator':
+        return (d for d in ds)
+    return ds
+
+
 def mgr_for(objs):
     import stevedore
     exts = [stevedore.extension.Extension(name=n, entry_point=None, plugin=None, obj=v) for n, v in objs.items()]
@@ -261,7 +271,7 @@ def check_case(ctx, case):
             t_in = table(enforcer_on(policy, tree, ds, 'in.' + case['in_fmt']), names)
             out = tree.path('up.' + case['out_fmt'])
             try:
-                with mock.patch('stevedore.named.NamedExtensionManager', return_value=mgr_for({'ns': ds})):
+                with mock.patch('stevedore.named.NamedExtensionManager', return_value=mgr_for({'ns': one_shot(ds, case.get('ns_obj'))})):
                     generator.upgrade_policy(['--policy', tree.path('in.' + case['in_fmt']), '--namespace', 'ns',
                                               '--output-file', out, '--format', case['out_fmt']], conf=cfg.ConfigOpts())
             except BaseException as e:
@@ -280,7 +290,7 @@ def check_case(ctx, case):
             t_in = table(enforcer_on(policy, tree, ds, 'in.json'), names)
             out = tree.path('conv.yaml')
             try:
-                with mock.patch('stevedore.named.NamedExtensionManager', return_value=mgr_for({'ns': ds})):
+                with mock.patch('stevedore.named.NamedExtensionManager', return_value=mgr_for({'ns': one_shot(ds, case.get('ns_obj'))})):
                     generator.convert_policy_json_to_yaml(['--policy-file', tree.path('in.json'), '--namespace', 'ns',
                                                            '--output-file', out], conf=cfg.ConfigOpts())
             except BaseException as e:
@@ -311,6 +321,22 @@ def check_case(ctx, case):
             enf_in = enforcer_on(policy, tree, ds, 'policy.yaml', dirs=('pd',))
             t_in = table(enf_in, names)
             allfiles = dict(f)
+            if case.get('then_file') is not None:
+                # the service has been running: the operator rewrites the files (overrides withdrawn / changed / moved
+                # between the main file and policy.d), and only then the tools are run against the living enforcer
+                f2 = case['then_file']
+                main = {k: v for k, v in f2.items() if k in case['then_in_main']}
+                dirf = {k: v for k, v in f2.items() if k not in case['then_in_main']}
+                if case.get('then_touch_main', True):
+                    tree.write('policy.yaml', main, 'json')
+                else:
+                    main = {k: v for k, v in f.items() if k in case['in_main']}
+                    dirf = {k: v for k, v in f2.items() if k not in main}
+                tree.write('pd/over.yaml', dirf, 'json')
+                allfiles = dict(main)
+                allfiles.update(dirf)
+                t_in = table(enforcer_on(policy, tree, ds, 'policy.yaml', dirs=('pd',)), names)      # what the files mean now
+                ctx.count('tools_on_living_enforcer')
             buf = io.StringIO()
             try:
                 with mock.patch('stevedore.named.NamedExtensionManager', return_value=mgr_for({'ns': enf_in})), \
@@ -372,11 +398,16 @@ def gen_case(rnd):
     tool = rnd.choice(['upgrade', 'upgrade', 'convert', 'convert', 'generator', 'generator', 'generator'])
     if tool == 'upgrade':
         return dict(tool=tool, defaults=spec, file=gen_file(rnd, spec), in_fmt=rnd.choice(['json', 'yaml']),
-                    out_fmt=rnd.choice(['yaml', 'json']))
+                    out_fmt=rnd.choice(['yaml', 'json']), ns_obj=rnd.choice(['list', 'list', 'chain', 'generator']))
     if tool == 'convert':
-        return dict(tool=tool, defaults=spec, file=gen_file(rnd, spec))
+        return dict(tool=tool, defaults=spec, file=gen_file(rnd, spec), ns_obj=rnd.choice(['list', 'list', 'chain', 'generator']))
     f = gen_file(rnd, spec, allow_deprecated=False, variants=0.6)
-    return dict(tool=tool, defaults=spec, file=f, in_main=[k for k in f if rnd.random() < 0.6])
+    case = dict(tool=tool, defaults=spec, file=f, in_main=[k for k in f if rnd.random() < 0.6])
+    if rnd.random() < 0.4:
+        f2 = {k: v for k, v in f.items() if rnd.random() < 0.6}             # some overrides withdrawn
+        f2.update({k: v for k, v in gen_file(rnd, spec, allow_deprecated=False, variants=0.3).items() if rnd.random() < 0.4})
+        case.update(then_file=f2, then_in_main=[k for k in f2 if rnd.random() < 0.5], then_touch_main=rnd.random() < 0.5)
+    return case
 
 
 def run(ctx):
